@@ -474,17 +474,24 @@ def r85(chk, m):
             return False
     for prop, f_want in (('Alph', lambda v: 'ABCDEFGHIJKLMNOPQRSTUVWXYZ'[v - 1]), ('alph', lambda v: 'abcdefghijklmnopqrstuvwxyz'[v - 1]),
                          ('Roman', roman), ('roman', lambda v: roman(v).lower()), ('arabic', str)):
-        getter = Counter.properties.get(prop, {}).get('get')
-        need(getter is not None, 'Counter.%s not found' % prop)
+        need(m.find_attr_class(Counter, prop) is not None, 'Counter.%s not found' % prop)
+        getter = Counter.properties.get(prop, {}).get('get') or Counter
         chk.analysed(getter)
         vals = (1, 2, 13, 25, 26) if 'lph' in prop else (1, 4, 9, 14, 40, 1994)
         got = {}
         for v in vals:
+            # the attribute is read on a counter object, however the class provides it (@property, property(...), a plain method call)
             hk = LH(m, Counter)
             hk.lookup = lambda interp, nm, state: None
-            it = A.Interp(model=m, scope=getter, hooks=hk, max_iter=4, exc_edges=False, inline=3, heap=True)
-            outs = it.run_function(getter, env={'self': A.Obj('counter', {'value': v, 'name': 'c'}, cls=Counter)})
-            got[v] = sorted({r if isinstance(r, str) else 'TOP' for kind, s2, r in outs if kind == 'return'})
+            any_fn = next(iter(Counter.methods.values()))
+            it = A.Interp(model=m, scope=any_fn, hooks=hk, max_iter=4, exc_edges=False, inline=4, heap=True, precise_exc=True)
+            st = A.State({'self': A.Obj('counter', {'value': v, 'name': 'c'}, cls=Counter)})
+            expr = ast.parse('self.%s' % prop, mode='eval').body
+            try:
+                r = it.ev(expr, st)
+            except AnalysisError:
+                r = A.TOP
+            got[v] = [r if isinstance(r, str) and not it.imprecise and '__exc' not in st.env else 'TOP']
         want = {v: [f_want(v)] for v in vals}
         chk.decide(R, 'Counter.%s' % prop, {repr(sorted(got.items()))}, {repr(sorted(want.items()))},
                    'Counter.%s gives %s, expected %s' % (prop, got, want), chk.where(getter))
@@ -527,40 +534,78 @@ def r89(chk, m, rule_id='R8.9'):
 
 
 def r86(chk, m):
-    R = chk.rule('R8.6', 'trimLeft removes only leading "0." groups (chapter 0), never digits inside the number - decided by '
-                 'evaluating the trimming step on concrete numbers; formatted values substitute ${counter} / ${counter.format} / '
-                 'nested ${thecounter}', 2)
+    R = chk.rule('R8.6', '\\the<counter> interpreted on a heap with scripted counters: ${name} / $name substitute the arabic value, '
+                 '${name.style} the named representation, ${thename} the text of that command; without a format the command prints '
+                 'its own counter; trimLeft removes only leading "0." groups (chapter 0), never digits inside the number', 8)
     fn = m.func('plasTeX', 'TheCounter.invoke')
     chk.analysed(fn)
     TheCounter = m.cls('plasTeX', 'TheCounter')
-    blk = [n for n in M.walk_no_nested(fn.node) if isinstance(n, ast.If) and text(n.test).replace(' ', '') in ('self.trimLeft', 'self.trimLeftisTrue')]
-    need(len(blk) == 1, 'TheCounter.invoke: trimLeft block not found')
-    targets = sorted({t.id for st in blk[0].body for n in ast.walk(st) if isinstance(n, (ast.Assign, ast.AugAssign))
-                      for t in (n.targets if isinstance(n, ast.Assign) else [n.target]) if isinstance(t, ast.Name)})
-    used = sorted({n.id for st in blk[0].body for n in ast.walk(st) if isinstance(n, ast.Name) and isinstance(n.ctx, ast.Load)} & set(targets))
-    need(len(used) == 1, 'TheCounter.invoke: the text variable of the trimLeft step is not identified (%s)' % targets)
-    var = used[0]
-    got = {}
-    for inp in ('0.3', '0.0.3', '10.1', '1.0.2', '3', '0', '20.0.1', '100.2'):
-        h = SelfHooks(m, TheCounter)
-        h.keep = lambda ev: False
-        h.should_inline = A.private_only
-        it = A.Interp(model=m, scope=fn, hooks=h, max_iter=6, exc_edges=False, inline=2)
-        outs = it.block(blk[0].body, [A.State({var: inp, 'self.trimLeft': True})])
-        vals = set()
-        for kind, lst in outs.items():
-            for s2, v in lst:
-                x = s2.env.get(var)
-                vals.add(x if isinstance(x, str) else 'TOP')
-        got[inp] = sorted(vals)
-    import re as _re
-    want = {inp: [_re.sub(r'^(?:0\.)+', '', inp)] for inp in got}
-    chk.decide(R, 'trimLeft is anchored at the start', {repr(sorted(got.items()))}, {repr(sorted(want.items()))},
-               'the trimLeft step turns numbers into %s; expected %s (only "0." groups at the very start are removed: 10.1 must stay 10.1)'
-               % (got, want), chk.where(fn, blk[0]))
-    from .c05 import reachable_private
-    s2 = ' '.join(text(f.node) for f in [fn] + reachable_private(m, fn))
-    consts = ' '.join(repr(m.class_const(TheCounter, k)) for k in TheCounter.assigns)
-    ok = re.search(r"getattr\(\w+(\.ownerDocument\.context\.counters\[\w+\])?, ", s2) is not None and ("'arabic'" in s2 or "'arabic'" in consts) \
-        and ".startswith('the')" in s2
-    chk.verdict(R, 'counter format substitution', ok, 'TheCounter.invoke must substitute counter values through the named representation (default arabic)', chk.where(fn))
+    Counter = m.cls('plasTeX', 'Counter')
+
+    class TH(A.Hooks):
+        cls = TheCounter
+
+        def keep(self, ev):
+            return False
+
+        def call(self, interp, node, fname, args, kwargs, state):
+            last = fname.rsplit('.', 1)[-1]
+            if last == 'textTokens' and len(args) == 1:
+                return ['TXT:%s' % args[0]] if isinstance(args[0], str) else A.TOP
+            if last == 'expandTokens' and args:
+                v = args[0]
+                if isinstance(v, list) and all(isinstance(x, str) for x in v):
+                    return [x[4:] if x.startswith('TXT:') else x for x in v]
+                return A.TOP
+            if last == 'createElement' and len(args) == 1 and isinstance(args[0], str):
+                made = state.env.get('__the', {})
+                return made.get(args[0], A.TOP)
+            if fname.endswith('stringletters') and not args:
+                return 'abcdefghijklmnopqrstuvwxyz'
+            if fname == 'numToRoman' and len(args) == 1 and isinstance(args[0], int):
+                return roman(args[0])
+            if re.match(r'(log|status|\w+log)\.\w+$', fname):
+                return A.NONE
+            return None
+
+    def the(name, fmt, doc, trim=False):
+        return A.Obj(name, {'format': fmt, 'trimLeft': trim, 'nodeName': name, 'ownerDocument': doc,
+                            '__class__': A.Obj('class:' + name, {'__name__': name})}, cls=TheCounter)
+
+    def scenario(values, commands, which):
+        counters = {k: A.Obj('counter:' + k, {'value': v, 'name': k}, cls=Counter) for k, v in values.items()}
+        doc = A.Obj('document', {'context': A.Obj('context', {'counters': counters})})
+        made = {name: the(name, fmt, doc, trim) for name, (fmt, trim) in commands.items()}
+        h = TH()
+        h.should_inline = lambda fname, node, info: True
+        it = A.Interp(model=m, scope=fn, hooks=h, max_iter=12, exc_edges=False, inline=6, heap=True, precise_exc=True)
+        outs = it.run_function(fn, env={'self': made[which], 'tex': A.Obj('tex', {}), '__the': made})
+        if it.imprecise or it.unknown_branches:
+            return None, '; '.join(sorted(set(list(it.imprecise) + list(it.unknown_branches)))[:3])
+        return {(kind, repr(v)) for kind, s2, v in outs}, None
+    V = {'chapter': 1, 'section': 2, 'subsection': 3, 'figure': 4, 'part': 14, 'item': 3}
+    cases = [
+        ('${name} gives the arabic value', V, {'thesection': ('${section}', False)}, 'thesection', '2'),
+        ('$name without braces', V, {'thesection': ('$section', False)}, 'thesection', '2'),
+        ('several counters and literal text', V, {'thesubsection': ('${section}.${subsection}', False)}, 'thesubsection', '2.3'),
+        ('a named representation', V, {'thepart': ('${part.Roman}', False)}, 'thepart', 'XIV'),
+        ('a lower-case representation', V, {'theitem': ('(${item.alph})', False)}, 'theitem', '(c)'),
+        ('the text of another \\the command', V, {'thesubsection': ('${thesection}.${subsection}', False), 'thesection': ('${chapter}.${section}', False)},
+         'thesubsection', '1.2.3'),
+        ('no format: the own counter', V, {'thefigure': (None, False)}, 'thefigure', '4'),
+        ('trimLeft with chapter 0', dict(V, chapter=0), {'thefigure': ('${chapter}.${figure}', True)}, 'thefigure', '4'),
+        ('trimLeft with chapter 0 and section 0', dict(V, chapter=0, section=0), {'thefigure': ('${chapter}.${section}.${figure}', True)}, 'thefigure', '4'),
+        ('trimLeft keeps 10.4', dict(V, chapter=10), {'thefigure': ('${chapter}.${figure}', True)}, 'thefigure', '10.4'),
+        ('trimLeft keeps 1.0.4', dict(V, chapter=1, section=0), {'thefigure': ('${chapter}.${section}.${figure}', True)}, 'thefigure', '1.0.4'),
+        ('without trimLeft 0.4 stays', dict(V, chapter=0), {'thefigure': ('${chapter}.${figure}', False)}, 'thefigure', '0.4'),
+    ]
+    for label, values, commands, which, want in cases:
+        try:
+            got, problem = scenario(values, commands, which)
+        except AnalysisError as e:
+            got, problem = None, str(e)
+        if got is None:
+            chk.undecided(R, label, problem, chk.where(fn))
+            continue
+        chk.decide(R, label, got, {('return', repr(['TXT:' + want]))},
+                   '\\%s with format %r and counters %s prints %s; expected %r' % (which, commands[which][0], values, sorted(got), want), chk.where(fn))
